@@ -3,7 +3,7 @@ import os, re, json
 import tmuxdrv
 from vlib import Infra
 
-QUERIES = ["a", "b", "c", "ab", "b c", "x1"]
+QUERIES = ["a", "b", "c", "ab", "b c", "x1", " a", "b ", " "]
 
 
 def tokens(data):
@@ -38,6 +38,9 @@ DIRECTED = [
     # a foreign file without a trailing newline, below the limit
     {"init": "a\nb", "max": 5, "sessions": [{"steps": ["change-query(c)"], "end": "accept"}, {"steps": ["prev-history"], "end": "abort"}]},
     {"init": "b c", "max": 2, "sessions": [{"steps": ["change-query(a)"], "end": "print-query"}]},
+    # entries with blanks at their edges survive a reload byte for byte
+    {"init": " a\nb \n", "max": 5, "sessions": [{"steps": ["prev-history"], "end": "abort"}, {"steps": ["change-query( c )"], "end": "print-query"},
+                                                {"steps": ["prev-history", "prev-history", "prev-history"], "end": "accept"}]},
     # next at the newest end, scratch line kept
     {"init": "a\nb\n", "max": 3, "sessions": [{"steps": ["put(c)", "next-history", "prev-history", "next-history", "next-history"], "end": "accept"}]},
 ]
